@@ -14,6 +14,8 @@ pub fn render_pragma(p: &Value) -> String {
             format!("pragma solidity {}{}.{}.{};", p["op"].as_str().unwrap_or(""), v[0], v[1], v[2])
         }
         "experimental" => "pragma experimental ABIEncoderV2;".to_string(),
+        // a top-level item before the (remaining) pragmas, on one line
+        "item" => "interface IPrelude { function ping() external; }".to_string(),
         _ => "pragma abicoder v2;".to_string(),
     }
 }
